@@ -445,5 +445,43 @@ func TestVerifC01SQLBenignTable(t *testing.T) {
 			}
 			m.Case("mixed-benign-"+flavour, true)
 		}
+		// sustained mix of benign and failing outcomes below the trip threshold over all entry points
+		for _, share := range []int{10, 30} {
+			if !m.Only(4000+share) || len(benignErrs) == 0 {
+				continue
+			}
+			e := c01NewEnv(flavour)
+			n := vk.N(3000, 20000)
+			var acc, tot int64
+			okRow := true
+			for i := 0; i < n; i++ {
+				path := c01Paths[r.Intn(len(c01Paths))]
+				err := benignErrs[r.Intn(len(benignErrs))]
+				if r.Intn(100) < share {
+					err = []error{boom, io.ErrUnexpectedEOF, context.DeadlineExceeded, c01ProvErr}[r.Intn(4)]
+				} else if err == c01CommitEarly || err == c01CommitTxDone {
+					path = []string{"Transact", "TransactCtx"}[r.Intn(2)]
+				}
+				must := 2*(tot-5) <= 3*acc
+				before, vb := e.spy.ran, e.spy.verdicts
+				got := c01Call(e, path, err)
+				m.Count("calls_mixed_success_failure_"+flavour, 1)
+				if e.spy.ran == before {
+					if must {
+						m.Violate("C01:mixed:sql:"+flavour+":rejected-below-threshold", fmt.Sprintf("case=%d;%d%% failing outcomes among benign ones on one %s conn", 4000+share, share, flavour), "call #%d (%s, %v) short-circuited (%v) although the %d admitted calls so far were judged %d acceptable / %d not by the conn's own predicate, i.e. total-5 <= 1.5*successes", i, path, err, got, tot, acc, tot-acc)
+						okRow = false
+						break
+					}
+					continue
+				}
+				if e.spy.verdicts > vb {
+					tot++
+					if e.spy.lastAcc {
+						acc++
+					}
+				}
+			}
+			m.Case(fmt.Sprint("mixed-success-failure-", flavour, share, okRow), okRow && tot > acc)
+		}
 	}
 }
